@@ -11,8 +11,9 @@
 EXTENDS Channel, Json, IOUtils, TLCExt
 CONSTANT Clauses          \* names of the invariants of Channel.tla this check decides
 Batch == JsonDeserialize(IOEnv.TRACE_FILE)
-VARIABLES tid, l, bad
-tvars == <<tid, l, bad, vars>>
+VARIABLES tid, l, bad,
+          since      \* per thread: virtual time (ms) of the last progress of its call (its start, its last data hand-over)
+tvars == <<tid, l, bad, since, vars>>
 R == Batch[tid]
 N == Len(R.events)
 E == R.events[l]
@@ -26,6 +27,7 @@ Holds(c) == CASE c = "WindowRespected" -> WindowRespected [] c = "PacketBound" -
               [] c = "NoSendAfterRelease" -> NoSendAfterRelease [] c = "ReturnedMeansAll" -> ReturnedMeansAll
               [] c = "RaiseIfShut" -> RaiseIfShut [] c = "SendallOutcome" -> SendallOutcome
               [] c = "SendallNoSpin" -> SendallNoSpin [] c = "NoHangInWindowWait" -> NoHangInWindowWait
+              [] c = "TimedSendEndsInTime" -> TRUE         \* judged at the "wait" events, see LateWait
 AtRestOnly == {"Conservation", "NoStarvation", "NoHangInWindowWait"}
 Failed(cs) == {"P_" \o c : c \in {x \in cs : ~Holds(x)}}
 
@@ -33,8 +35,12 @@ SpecOp(o) == IF o = "send_ext" THEN "send_err" ELSE IF o = "sendall_ext" THEN "s
              ELSE IF o = "recv_err_loop" THEN "recv_err" ELSE o
 Known(t) == t \in Threads
 
+\* "raise if it times out": a timed send never starts a wait on the window condition whose deadline lies beyond
+\* (last progress of the call) + (the channel timeout) - however often it was woken in between
+LateWait == E.ev = "wait" /\ E.dl >= 0 /\ E.th \in Threads /\ E.dl - since[E.th] > R.par.budget
+
 TInit ==
-  /\ tid \in 1..Len(Batch) /\ l = 1 /\ bad = {}
+  /\ tid \in 1..Len(Batch) /\ l = 1 /\ bad = {} /\ since = [t \in Threads |-> 0]
   /\ win = [X \in Sides |-> R.par.win[X]] /\ thresh = [X \in Sides |-> R.par.thresh[X]]
   /\ maxpkt = [X \in Sides |-> R.par.maxpkt[X]] /\ peermax = [X \in Sides |-> R.par.peermax[X]]
   /\ tmo = [X \in Sides |-> R.par.tmo[X]]
@@ -88,14 +94,18 @@ Event ==
   /\ l <= N /\ l' = l + 1 /\ tid' = tid /\ UNCHANGED <<par, hb>>
   /\ CASE E.ev = "call" -> Call [] E.ev = "emit" -> Emitted [] E.ev = "read" -> Read [] E.ev = "ret" -> Ret
        [] E.ev = "deliver" -> Dispatch [] E.ev = "done" -> Done [] E.ev = "lost" -> LostEv
+       [] E.ev = "wait" -> UNCHANGED <<thr, chan, tr, robs>> /\ NoEmit
+  /\ since' = IF E.th \in Threads /\ (E.ev = "call" \/ (E.ev = "emit" /\ E.t \in DataT))
+                 THEN [since EXCEPT ![E.th] = E.now] ELSE since
   /\ bad' = Failed(Clauses \ AtRestOnly)'
             \cup (IF E.ev = "deliver" /\ ~FifoOk THEN {"C_fifo"} ELSE {})
             \cup (IF E.ev = "emit" /\ E.dropped = alive[E.side] THEN {"C_dropped"} ELSE {})
+            \cup (IF "TimedSendEndsInTime" \in Clauses /\ LateWait THEN {"P_TimedSendEndsInTime"} ELSE {})
 
 WaitingAt(t) == IF \E i \in 1..Len(F.waiting) : F.waiting[i].th = t
                 THEN (CHOOSE i \in 1..Len(F.waiting) : F.waiting[i].th = t) ELSE 0
 Final ==          \* the schedule has ended: take the channel attributes from the snapshot and judge the state at rest
-  /\ l = N + 1 /\ l' = l + 1 /\ tid' = tid /\ UNCHANGED <<par, hb>>
+  /\ l = N + 1 /\ l' = l + 1 /\ tid' = tid /\ UNCHANGED <<par, hb, since>>
   /\ outwin' = [X \in Sides |-> F.sides[X].outwin] /\ sofar' = [X \in Sides |-> F.sides[X].sofar]
   /\ buf' = [X \in Sides |-> [out |-> F.sides[X].out, err |-> F.sides[X].err]]
   /\ eofSent' = [X \in Sides |-> F.sides[X].eofSent] /\ eofRecv' = [X \in Sides |-> F.sides[X].eofRecv]
